@@ -619,6 +619,13 @@ def reported_parents_unfiltered(ctx, res, prefix='reported-parent'):
 def r11_reported_parents_unfiltered(ctx, res):
     reported_parents_unfiltered(ctx, res)
 
+def r12_default_scope_is_the_extension_family(ctx, res):
+    """in default mode the relations of an element are read in the scope of its whole extension family - own lexicon, every
+    lexicon it extends, every lexicon extending it, in both directions and to any depth (C04-R4): an extension of an extension
+    declares relations on the middle lexicon's elements too."""
+    from .c04 import r4_default_formula
+    r4_default_formula(ctx, res)
+
 RULES = [
     ('C11-R1', r1_termination, 6),
     ('C11-R2', r2_sibling_relation_queries, 10),
@@ -631,4 +638,5 @@ RULES = [
     ('C11-R9', r9_relation_names_exist, 6),
     ('C11-R10', r10_borrowed_relations_complete, 10),
     ('C11-R11', r11_reported_parents_unfiltered, 4),
+    ('C11-R12', r12_default_scope_is_the_extension_family, 3),
 ]
